@@ -94,6 +94,21 @@ func runCheck(ld *Loaded, db *SpecDB, work string, t0 time.Time) int {
 	for _, n := range names {
 		g := groups[n]
 		g.Status = "discharged"
+		if g.Kind == "cover" {
+			// reachable if any explored path to the site is satisfiable
+			g.Status = "failed"
+			for _, ob := range g.Insts {
+				if ob.Status == "discharged" {
+					g.Status = "discharged"
+				}
+			}
+			if g.Status == "discharged" {
+				nDis++
+			} else {
+				nFail++
+			}
+			continue
+		}
 		for _, ob := range g.Insts {
 			if ob.Status == "failed" {
 				g.Status = "failed"
@@ -117,7 +132,10 @@ func runCheck(ld *Loaded, db *SpecDB, work string, t0 time.Time) int {
 			if g.Status != "discharged" && *flagVerbose {
 				for _, ob := range g.Insts {
 					if ob.Status != "discharged" && ob.Status != "trivial" {
-						fmt.Printf("    %s [%s] trace=%v file=%s\n", ob.Status, ob.Backend, ob.Trace, ob.File)
+						fmt.Printf("    %s [%s] trace=%v file=%s size=%d\n", ob.Status, ob.Backend, ob.Trace, ob.File, ob.SMTSize)
+						if ob.Status == "unknown" {
+							fmt.Printf("    solver: %s\n", strings.TrimSpace(ob.Model))
+						}
 						if ob.Status == "failed" && ob.Expect == "unsat" {
 							fmt.Printf("    model: %s\n", summariseModel(ob.Model, 30))
 						}
